@@ -40,8 +40,14 @@ func (pass *DisjunctionWithNullToOptional) processDisjunction(_ *Visitor, _ *ast
 		return def, nil
 	}
 
+	nonNullTypes := disjunction.Branches.NonNullTypes()
+	// null | null
+	if len(nonNullTypes) == 0 {
+		return def, nil
+	}
+
 	// type | null
-	finalType := disjunction.Branches.NonNullTypes()[0]
+	finalType := nonNullTypes[0]
 	finalType.Nullable = true
 	finalType.AddToPassesTrail(fmt.Sprintf("DisjunctionWithNullToOptional[%[1]s|null → %[1]s?]", ast.TypeName(finalType)))
 
